@@ -190,6 +190,46 @@ pub fn scenarios(prop: &str, tier: &str) -> Vec<Scenario> {
                 out.push(sc);
             }
         }
+        if prop == "C02" {
+            // RRT-Connect: the goal root is rejected by the checker AND the goal sampler fails at one of
+            // the following redraws (a finite list of goal configurations, a capped rejection sampler)
+            for k in [1usize, 2, 3] {
+                for kind in [0u8, 1] {
+                    let w = b.world_named("goal-overlap", vec![b.goal_overlap.clone()]);
+                    let mut sc = b.scenario(w, b.params(Pk::Connect, 1.0, 1.5, 0.0), &format!("C02/{kit}/goal-overlap/RRTConnect/root1/goal-sampler-fails@{k}/{kind}"));
+                    sc.goal_root = 1;
+                    sc.goal_fail_at = Some((k, kind));
+                    out.push(sc);
+                }
+            }
+        }
+        if prop == "C01" {
+            // the only goal sample lies marginally (0.03 L) inside an obstacle: a goal-side root that is
+            // accepted without (or after giving up on) validation lets the goal tree grow outwards
+            let l = crate::refspace::lvs(&b.spec);
+            let s1 = b.goal_samples[1].clone();
+            let far = with_kit!(kit, farthest_state(&b, &s1));
+            let ob = with_kit!(kit, marginal_ball_of(&b, &s1, &far, 2.5 * l, 0.03 * l));
+            for pk in Pk::ALL {
+                let mut sc = b.scenario(b.world_named("goal-sample-marginally-inside", vec![ob.clone()]), b.params(pk, if pk == Pk::Prm { 1.6 } else { 0.6 }, 1.5, 0.0), &format!("C01/{kit}/goal-sample-marginally-inside/{}", pk.name()));
+                sc.goal_samples = vec![s1.clone()];
+                sc.goal_balls = vec![(s1.clone(), 0.01 * l)];
+                out.push(sc);
+            }
+            // ... and with the setup draw failing as well (the goal tree is empty when solve starts)
+            for kind in [0u8, 1] {
+                let w = b.world_named("goal-overlap", vec![b.goal_overlap.clone()]);
+                let mut sc = b.scenario(w, b.params(Pk::Connect, 1.0, 1.5, 0.0), &format!("C02/{kit}/goal-overlap/RRTConnect/goal-sampler-fails-twice/{kind}"));
+                sc.goal_fail_at = Some((0, kind));
+                sc.goal_fail_from = None;
+                out.push(sc.clone());
+                let mut sc2 = sc;
+                sc2.tag = format!("C02/{kit}/goal-overlap/RRTConnect/goal-sampler-fails-first-two/{kind}");
+                sc2.goal_fail_at = None;
+                sc2.goal_fail_from = Some((0, kind));
+                out.push(sc2);
+            }
+        }
         if prop == "C01" || prop == "C02" {
             // two start states, the SECOND one marginally inside an obstacle: the planners plan from the first;
             // a planner that roots its search at every start must not return a path from the rejected one
